@@ -45,6 +45,7 @@ type Shared struct {
 	lazyMemo    map[string]StoreEntry
 	reachWanted map[string]int
 	reachSat    map[string]bool
+	stubPanic   map[string]bool // stubs that may also panic (zzvp.StubMayPanic)
 	divMemo     map[string][2]string // (numerator|denominator) -> names of quotient and remainder
 	reachLater  map[string][]*State // paths that reached a label after the first witness attempts were in flight (tried later if those fail)
 	pending     []*FinalQuery
